@@ -8,7 +8,6 @@ package main
 
 import (
 	"fmt"
-	"os"
 	"runtime"
 	"strings"
 	"sync"
@@ -22,6 +21,7 @@ import (
 type line struct{ class, op, impl string }
 
 type scenario struct {
+	id    int
 	proto proto.Protocol
 	try   []string
 	rng   *hx.Rng
@@ -33,6 +33,7 @@ type scenario struct {
 func isModern(p proto.Protocol) bool { return p >= 764 }
 
 func (sc *scenario) emit(class, op, impl string) {
+	op = fmt.Sprintf("%s @%d.%d", op, sc.id, len(sc.out))
 	sc.out = append(sc.out, line{fmt.Sprintf("%s/%s", class, map[bool]string{true: "modern", false: "legacy"}[isModern(sc.proto)]), op, impl})
 }
 
@@ -259,13 +260,6 @@ func (sc *scenario) run() {
 			default:
 				continue
 			}
-			if os.Getenv("C16_DEBUG") != "" && f[0] == "login" && strings.HasPrefix(impl, "ok") && !strings.Contains(impl, "lists=s") {
-				fmt.Fprintln(os.Stderr, "FLAKE", sc.proto, impl, w.observeOnce().String())
-				buf := make([]byte, 1<<22)
-				n := runtime.Stack(buf, true)
-				os.Stderr.Write(buf[:n])
-				os.Exit(3)
-			}
 			if impl == "hang" || impl == "panic" {
 				alive = false
 			} else if f[0] != "script" {
@@ -315,16 +309,7 @@ func main() {
 		scs = append(scs, &scenario{proto: p, try: all, rng: hx.NewRng(1),
 			fixed: []string{"login", "script s2 kc.a", "req s2", "req s2", "script s3 s:kc|start s3", "req s1", "release", "req s1"}})
 	}
-	if os.Getenv("C16_DEBUG") == "login" {
-		scs = nil
-		for i := 0; i < 300; i++ {
-			scs = append(scs, &scenario{proto: modern[i%3], try: all, rng: hx.NewRng(1), fixed: []string{"login", "req s2"}})
-		}
-	}
-	n := run.Scale(110, 900)
-	if os.Getenv("C16_DEBUG") != "" {
-		n = 0
-	}
+	n := run.Scale(220, 900)
 	for i := 0; i < n; i++ {
 		var p proto.Protocol
 		if i%2 == 0 {
@@ -347,7 +332,8 @@ func main() {
 	}
 	sem := make(chan struct{}, par)
 	var wg sync.WaitGroup
-	for _, sc := range scs {
+	for i, sc := range scs {
+		sc.id = i
 		wg.Add(1)
 		sem <- struct{}{}
 		go func() {
